@@ -1,1 +1,398 @@
-pub fn cmd_laws(_args: &[String]) {}
+//! C08: observation tables of dynamic values (zvariant::Value / OwnedValue).
+//!
+//! `laws <tables> <seed> <out>` writes one line per table.  A table is a pool of N values drawn
+//! (seeded) from families of related values -- NaN with several payloads, +0.0 / -0.0, equal values
+//! built in different ways (static vs parsed signatures, static / borrowed / owned strings), empty
+//! containers, nested containers holding those -- with everything the laws of spec/ValueLaws.tla
+//! talk about:
+//!   n      number of values              dbg   Debug text of every value (for humans only)
+//!   nan    1 if the value contains a NaN anywhere          fd    1 if it contains a file descriptor
+//!   eq     N x N: a == b                 (0 / 1; 2 = panic)
+//!   cmp    N x N: Ord::cmp(a, b)         (0 Less, 1 Equal, 2 Greater; 4 = panic)
+//!   pcmp   N x N: PartialOrd             (as cmp; 3 = None)
+//!   hash   class index of the std DefaultHasher hash of every value (equal hash <=> equal index)
+//!   vsig   value_signature() as text     esig  the signature found in the D-Bus encoding of the variant
+//!   clone  per value [ok, equal to the original, same signature] for try_clone
+//!   owned  the same for try_to_owned (compared through Deref)
+//!   ovrt   the same for OwnedValue::try_from(&v) -> Value::from(owned)
+//!   into   the same for try_clone + try_into_owned
+//!   std    T -> Value -> T round trips of std types: [{"ty", "ok"}], ok = 1 iff the original came back
+//! The harness only observes; spec/trace/LawsCheck.tla judges every table.
+use crate::model::{guarded, Rng};
+use serde_json::{json, Value as J};
+use std::cmp::Ordering;
+use std::collections::hash_map::DefaultHasher;
+use std::collections::HashMap;
+use std::hash::{Hash, Hasher};
+use std::io::Write;
+use std::os::fd::AsFd;
+use std::str::FromStr;
+use zvariant::serialized::Context;
+use zvariant::{Array, Dict, Fd, ObjectPath, OwnedObjectPath, OwnedValue, Signature, Str, StructureBuilder, Value, LE};
+
+type V = Value<'static>;
+
+fn nan(payload: u64, neg: bool) -> f64 {
+    f64::from_bits(0x7ff8_0000_0000_0000 | payload | if neg { 1 << 63 } else { 0 })
+}
+
+fn arr(sig: &Signature, items: Vec<V>) -> V {
+    let mut a = Array::new(sig);
+    for i in items {
+        a.append(i).expect("array element");
+    }
+    Value::Array(a)
+}
+
+fn st(items: Vec<V>) -> V {
+    let mut b = StructureBuilder::new();
+    for i in items {
+        b = b.append_field(i);
+    }
+    Value::Structure(b.build().expect("structure"))
+}
+
+fn dict(k: &Signature, v: &Signature, items: Vec<(V, V)>) -> V {
+    let mut d = Dict::new(k, v);
+    for (a, b) in items {
+        d.append(a, b).expect("dict entry");
+    }
+    Value::Dict(d)
+}
+
+fn parsed(s: &str) -> Signature {
+    Signature::from_str(s).expect("signature")
+}
+
+static STDIN_LIKE: std::sync::OnceLock<std::fs::File> = std::sync::OnceLock::new();
+fn some_file() -> &'static std::fs::File {
+    STDIN_LIKE.get_or_init(|| std::fs::File::open("/dev/null").expect("/dev/null"))
+}
+
+/// Families of related values; family f, member m.  Members of a family are equal, almost equal,
+/// or built differently on purpose.
+fn family(f: usize, m: usize) -> Option<V> {
+    let leaked: &'static str = Box::leak(String::from("a").into_boxed_str());
+    Some(match (f, m) {
+        // zeros and ordinary floats
+        (0, 0) => Value::F64(0.0),
+        (0, 1) => Value::F64(-0.0),
+        (0, 2) => Value::F64(1.5),
+        (0, 3) => Value::F64(f64::INFINITY),
+        (0, 4) => Value::F64(f64::NEG_INFINITY),
+        (0, 5) => Value::F64(f64::MIN_POSITIVE),
+        // NaNs
+        (1, 0) => Value::F64(nan(0, false)),
+        (1, 1) => Value::F64(nan(0, false)),
+        (1, 2) => Value::F64(nan(1, false)),
+        (1, 3) => Value::F64(nan(0, true)),
+        (1, 4) => Value::F64(2.5),
+        // integers of every width, same numeric value in different types
+        (2, 0) => Value::U8(1),
+        (2, 1) => Value::I16(1),
+        (2, 2) => Value::U16(1),
+        (2, 3) => Value::I32(1),
+        (2, 4) => Value::U32(1),
+        (2, 5) => Value::I64(1),
+        (2, 6) => Value::U64(1),
+        (2, 7) => Value::Bool(true),
+        (2, 8) => Value::U8(1),
+        (2, 9) => Value::I64(i64::MIN),
+        (2, 10) => Value::U64(u64::MAX),
+        (2, 11) => Value::Bool(false),
+        // strings: static / borrowed / owned spellings of the same text, and others
+        (3, 0) => Value::Str(Str::from_static("a")),
+        (3, 1) => Value::Str(Str::from(leaked)),
+        (3, 2) => Value::Str(Str::from(String::from("a"))),
+        (3, 3) => Value::Str(Str::from("")),
+        (3, 4) => Value::Str(Str::from(String::from("b"))),
+        (3, 5) => Value::Str(Str::from("é")),
+        (3, 6) => Value::ObjectPath(ObjectPath::from_static_str_unchecked("/a")),
+        (3, 7) => Value::ObjectPath(ObjectPath::try_from(String::from("/a")).unwrap()),
+        (3, 8) => Value::Str(Str::from("/a")), // same text as the object path, other type
+        // signatures as values: several spellings of the same signature
+        (4, 0) => Value::Signature(parsed("is")),
+        (4, 1) => Value::Signature(parsed("(is)")),
+        (4, 2) => Value::Signature(Signature::static_structure(&[&Signature::I32, &Signature::Str])),
+        (4, 3) => Value::Signature(Signature::structure(vec![Signature::I32, Signature::Str])),
+        (4, 4) => Value::Signature(parsed("ai")),
+        (4, 5) => Value::Signature(Signature::static_array(&Signature::I32)),
+        (4, 6) => Value::Signature(Signature::Unit),
+        (4, 7) => Value::Signature(parsed("")),
+        (4, 8) => Value::Signature(parsed("a{sv}")),
+        // empty arrays: same element type through different constructors, and other element types
+        (5, 0) => arr(&Signature::U32, vec![]),
+        (5, 1) => arr(&parsed("u"), vec![]),
+        (5, 2) => Value::from(Vec::<u32>::new()),
+        (5, 3) => arr(&Signature::I32, vec![]),
+        (5, 4) => arr(&parsed("au"), vec![]),
+        (5, 5) => arr(&Signature::U32, vec![Value::U32(0)]),
+        (5, 6) => Value::from(vec![0u32]),
+        (5, 7) => arr(&Signature::Str, vec![]),
+        // arrays of floats
+        (6, 0) => arr(&Signature::F64, vec![Value::F64(0.0)]),
+        (6, 1) => arr(&Signature::F64, vec![Value::F64(-0.0)]),
+        (6, 2) => arr(&Signature::F64, vec![Value::F64(nan(0, false))]),
+        (6, 3) => arr(&Signature::F64, vec![Value::F64(1.0)]),
+        (6, 4) => arr(&Signature::F64, vec![Value::F64(1.0), Value::F64(nan(0, false))]),
+        (6, 5) => Value::from(vec![0.0f64]),
+        (6, 6) => arr(&Signature::F64, vec![]),
+        // structures holding floats: (NaN) (1.0) (2.0) -- the classic intransitive triple
+        (7, 0) => st(vec![Value::F64(nan(0, false))]),
+        (7, 1) => st(vec![Value::F64(1.0)]),
+        (7, 2) => st(vec![Value::F64(2.0)]),
+        (7, 3) => st(vec![Value::F64(nan(0, false)), Value::U8(1)]),
+        (7, 4) => st(vec![Value::F64(nan(0, false)), Value::U8(2)]),
+        (7, 5) => st(vec![Value::F64(0.0)]),
+        (7, 6) => st(vec![Value::F64(-0.0)]),
+        // structures: same content through different constructors
+        (8, 0) => st(vec![Value::U8(1), Value::Str(Str::from_static("a"))]),
+        (8, 1) => Value::from((1u8, "a")),
+        (8, 2) => Value::from((1u8, String::from("a"))),
+        (8, 3) => st(vec![Value::U8(1), Value::Str(Str::from_static("b"))]),
+        (8, 4) => st(vec![Value::U8(1)]),
+        (8, 5) => st(vec![st(vec![Value::U8(1)])]),
+        (8, 6) => st(vec![Value::U8(1), arr(&Signature::U8, vec![])]),
+        (8, 7) => st(vec![Value::U8(1), Value::from(Vec::<u8>::new())]),
+        // dicts: empty through different constructors, float keys, variant values
+        (9, 0) => dict(&Signature::Str, &Signature::Variant, vec![]),
+        (9, 1) => dict(&parsed("s"), &parsed("v"), vec![]),
+        (9, 2) => Value::from(HashMap::<String, Value<'static>>::new()),
+        (9, 3) => dict(&Signature::Str, &Signature::U32, vec![]),
+        (9, 4) => dict(&Signature::Str, &Signature::U32, vec![(Value::from("a"), Value::U32(1))]),
+        (9, 5) => Value::from(HashMap::from([(String::from("a"), 1u32)])),
+        (9, 6) => dict(&Signature::F64, &Signature::U8, vec![(Value::F64(0.0), Value::U8(1))]),
+        (9, 7) => dict(&Signature::F64, &Signature::U8, vec![(Value::F64(-0.0), Value::U8(1))]),
+        (9, 8) => dict(&Signature::F64, &Signature::U8, vec![(Value::F64(nan(0, false)), Value::U8(1))]),
+        (9, 9) => dict(
+            &Signature::Str,
+            &Signature::Variant,
+            vec![(Value::from("k"), Value::Value(Box::new(Value::F64(-0.0))))],
+        ),
+        (9, 10) => dict(
+            &Signature::Str,
+            &Signature::Variant,
+            vec![(Value::from("k"), Value::Value(Box::new(Value::F64(0.0))))],
+        ),
+        // variants
+        (10, 0) => Value::Value(Box::new(Value::U8(1))),
+        (10, 1) => Value::Value(Box::new(Value::Value(Box::new(Value::U8(1))))),
+        (10, 2) => Value::Value(Box::new(Value::F64(nan(0, false)))),
+        (10, 3) => Value::Value(Box::new(Value::F64(0.0))),
+        (10, 4) => Value::Value(Box::new(Value::F64(-0.0))),
+        (10, 5) => Value::Value(Box::new(arr(&Signature::U32, vec![]))),
+        (10, 6) => Value::Value(Box::new(Value::from(Vec::<u32>::new()))),
+        // file descriptors: two handles on the same open file, borrowed and owned
+        (11, 0) => Value::Fd(Fd::from(some_file().as_fd())),
+        (11, 1) => Value::Fd(Fd::from(some_file().as_fd())),
+        (11, 2) => Value::Fd(Fd::from(std::os::fd::OwnedFd::from(
+            std::fs::File::open("/dev/null").expect("/dev/null"),
+        ))),
+        (11, 3) => st(vec![Value::Fd(Fd::from(some_file().as_fd())), Value::U8(1)]),
+        _ => return None,
+    })
+}
+
+const FAMILIES: usize = 12;
+
+fn family_size(f: usize) -> usize {
+    (0..).take_while(|m| family(f, *m).is_some()).count()
+}
+
+fn contains(v: &V, pred: &dyn Fn(&V) -> bool) -> bool {
+    if pred(v) {
+        return true;
+    }
+    match v {
+        Value::Value(inner) => contains(inner, pred),
+        Value::Array(a) => a.inner().iter().any(|x| contains(x, pred)),
+        Value::Dict(d) => d.iter().any(|(k, x)| contains(k, pred) || contains(x, pred)),
+        Value::Structure(s) => s.fields().iter().any(|x| contains(x, pred)),
+        _ => false,
+    }
+}
+
+/// Wrap a drawn value into a container (seeded), so that laws are also observed through nesting.
+fn wrap(rng: &mut Rng, v: V) -> V {
+    match rng.below(5) {
+        0 => Value::Value(Box::new(v)),
+        1 => st(vec![v, Value::U8(7)]),
+        2 => {
+            let sig = v.value_signature().clone();
+            arr(&sig, vec![v])
+        }
+        3 => {
+            let sig = v.value_signature().clone();
+            dict(&Signature::Str, &sig, vec![(Value::from("k"), v)])
+        }
+        _ => st(vec![Value::from("x"), v]),
+    }
+}
+
+fn hash_of(v: &V) -> u64 {
+    let mut h = DefaultHasher::new();
+    v.hash(&mut h);
+    h.finish()
+}
+
+fn ord_code(o: Ordering) -> u8 {
+    match o {
+        Ordering::Less => 0,
+        Ordering::Equal => 1,
+        Ordering::Greater => 2,
+    }
+}
+
+/// The signature text found in the D-Bus encoding of `v` as a variant: [len][signature][0] value.
+fn encoded_sig(v: &V) -> String {
+    match guarded(std::panic::AssertUnwindSafe(|| zvariant::to_bytes(Context::new_dbus(LE, 0), v))) {
+        Ok(Ok(data)) => {
+            let b = data.bytes();
+            if b.is_empty() || b.len() < 2 + b[0] as usize {
+                return "!short".into();
+            }
+            String::from_utf8_lossy(&b[1..1 + b[0] as usize]).into_owned()
+        }
+        Ok(Err(e)) => format!("!err {e}"),
+        Err(p) => format!("!panic {p}"),
+    }
+}
+
+fn preserved(orig: &V, copy: zvariant::Result<V>) -> J {
+    match copy {
+        Err(_) => json!([0, 0, 0]),
+        Ok(c) => {
+            let eq = guarded(std::panic::AssertUnwindSafe(|| c == *orig && *orig == c)).map(|x| x as u8).unwrap_or(2);
+            json!([1, eq, (c.value_signature() == orig.value_signature()) as u8])
+        }
+    }
+}
+
+fn std_round_trips(rng: &mut Rng) -> Vec<J> {
+    let mut out = vec![];
+    macro_rules! rt {
+        ($name:expr, $ty:ty, $val:expr, $same:expr) => {{
+            let orig: $ty = $val;
+            let keep = orig.clone();
+            let r = guarded(std::panic::AssertUnwindSafe(|| {
+                let v: Value<'_> = Value::from(orig);
+                <$ty>::try_from(v)
+            }));
+            let ok = match r {
+                Ok(Ok(back)) => {
+                    let same: fn(&$ty, &$ty) -> bool = $same;
+                    same(&back, &keep) as u8
+                }
+                Ok(Err(_)) => 0,
+                Err(_) => 2,
+            };
+            out.push(json!({"ty": $name, "ok": ok}));
+        }};
+    }
+    let x = rng.next();
+    let pick_f = [0.0f64, -0.0, 1.5, f64::INFINITY, f64::from_bits(x), nan(0, false), nan(3, true), f64::MIN_POSITIVE];
+    let f = pick_f[rng.below(pick_f.len() as u64) as usize];
+    let text = ["", "a", "é€", "org.example.Name", "with space"][rng.below(5) as usize].to_string();
+    rt!("u8", u8, x as u8, |a, b| a == b);
+    rt!("bool", bool, x & 1 == 1, |a, b| a == b);
+    rt!("i16", i16, x as i16, |a, b| a == b);
+    rt!("u16", u16, x as u16, |a, b| a == b);
+    rt!("i32", i32, x as i32, |a, b| a == b);
+    rt!("u32", u32, x as u32, |a, b| a == b);
+    rt!("i64", i64, x as i64, |a, b| a == b);
+    rt!("u64", u64, x, |a, b| a == b);
+    rt!("f64", f64, f, |a, b| a.to_bits() == b.to_bits());
+    rt!("String", String, text.clone(), |a, b| a == b);
+    rt!("Str", Str<'static>, Str::from(text.clone()), |a, b| a == b);
+    rt!("Signature", Signature, parsed(["", "i", "a{sv}", "(ii)", "is"][rng.below(5) as usize]), |a, b| a == b
+        && a.to_string() == b.to_string());
+    rt!("ObjectPath", ObjectPath<'static>, ObjectPath::try_from(["/", "/a", "/a/b_1"][rng.below(3) as usize]).unwrap(), |a, b| a == b);
+    rt!("OwnedObjectPath", OwnedObjectPath, OwnedObjectPath::try_from("/o/p").unwrap(), |a, b| a == b);
+    rt!("Vec<u32>", Vec<u32>, (0..rng.below(4)).map(|i| (x >> i) as u32).collect(), |a, b| a == b);
+    rt!("Vec<u8>", Vec<u8>, x.to_le_bytes()[..rng.below(9) as usize].to_vec(), |a, b| a == b);
+    rt!("Vec<String>", Vec<String>, (0..rng.below(3)).map(|i| format!("s{i}{text}")).collect(), |a, b| a == b);
+    rt!("Vec<f64>", Vec<f64>, vec![f, 1.0, -0.0], |a, b| a.len() == b.len()
+        && a.iter().zip(b).all(|(p, q)| p.to_bits() == q.to_bits()));
+    rt!("Vec<Vec<i16>>", Vec<Vec<i16>>, vec![vec![], vec![x as i16, 3]], |a, b| a == b);
+    rt!("HashMap<String,u32>", HashMap<String, u32>, (0..rng.below(4)).map(|i| (format!("k{i}"), (x >> i) as u32)).collect(), |a, b| a == b);
+    rt!("HashMap<u8,String>", HashMap<u8, String>, (0..rng.below(3)).map(|i| (i as u8, text.clone())).collect(), |a, b| a == b);
+    rt!("HashMap<String,Vec<u8>>", HashMap<String, Vec<u8>>, HashMap::from([(text.clone(), vec![1u8, 2]), ("z".into(), vec![])]), |a, b| a == b);
+    rt!("(u8,String)", (u8, String), (x as u8, text.clone()), |a, b| a == b);
+    rt!("(i32,(bool,u64),Vec<u8>)", (i32, (bool, u64), Vec<u8>), (x as i32, (x & 2 == 2, x), vec![9u8]), |a, b| a == b);
+    rt!("(f64,)", (f64,), (f,), |a, b| a.0.to_bits() == b.0.to_bits());
+    out
+}
+
+/// laws <tables> <seed> <out>
+pub fn cmd_laws(args: &[String]) {
+    let tables: u64 = args[0].parse().expect("tables");
+    let seed: u64 = args[1].parse().expect("seed");
+    let mut rng = Rng(seed.wrapping_mul(0x9E37_79B9).wrapping_add(0xC08));
+    let mut w = std::io::BufWriter::new(std::fs::File::create(&args[2]).expect("create"));
+    let sizes: Vec<usize> = (0..FAMILIES).map(family_size).collect();
+    const N: usize = 12;
+    for id in 0..tables {
+        // draw: 3-4 families, up to 3 members each (with repetition, so equal values meet), some wrapped
+        let mut pool: Vec<V> = vec![];
+        while pool.len() < N {
+            let f = rng.below(FAMILIES as u64) as usize;
+            let wrapper = if rng.chance(1, 3) { Some(rng.next()) } else { None };
+            let take = 2 + rng.below(3) as usize;
+            for _ in 0..take {
+                if pool.len() >= N {
+                    break;
+                }
+                let m = rng.below(sizes[f] as u64) as usize;
+                let v = family(f, m).unwrap();
+                // members of one family are wrapped the same way, so that they stay comparable
+                pool.push(match wrapper {
+                    Some(ws) => wrap(&mut Rng(ws), v),
+                    None => v,
+                });
+            }
+        }
+        let n = pool.len();
+        let mut eq = vec![vec![0u8; n]; n];
+        let mut cmp = vec![vec![0u8; n]; n];
+        let mut pcmp = vec![vec![0u8; n]; n];
+        for i in 0..n {
+            for j in 0..n {
+                let (a, b) = (&pool[i], &pool[j]);
+                eq[i][j] = guarded(std::panic::AssertUnwindSafe(|| a == b)).map(|x| x as u8).unwrap_or(2);
+                cmp[i][j] = guarded(std::panic::AssertUnwindSafe(|| ord_code(a.cmp(b)))).unwrap_or(4);
+                pcmp[i][j] =
+                    guarded(std::panic::AssertUnwindSafe(|| a.partial_cmp(b).map(ord_code).unwrap_or(3))).unwrap_or(4);
+            }
+        }
+        let hashes: Vec<u64> = pool.iter().map(hash_of).collect();
+        let mut classes: Vec<u64> = vec![];
+        let hash: Vec<usize> = hashes
+            .iter()
+            .map(|h| match classes.iter().position(|c| c == h) {
+                Some(p) => p + 1,
+                None => {
+                    classes.push(*h);
+                    classes.len()
+                }
+            })
+            .collect();
+        let is_nan = |v: &V| matches!(v, Value::F64(x) if x.is_nan());
+        let is_fd = |v: &V| matches!(v, Value::Fd(_));
+        let line = json!({
+            "id": id, "n": n,
+            "dbg": pool.iter().map(|v| { let mut s = format!("{v:?}"); s.truncate(120); s }).collect::<Vec<_>>(),
+            "nan": pool.iter().map(|v| contains(v, &is_nan) as u8).collect::<Vec<_>>(),
+            "fd": pool.iter().map(|v| contains(v, &is_fd) as u8).collect::<Vec<_>>(),
+            "eq": eq, "cmp": cmp, "pcmp": pcmp, "hash": hash,
+            "vsig": pool.iter().map(|v| v.value_signature().to_string()).collect::<Vec<_>>(),
+            "esig": pool.iter().map(encoded_sig).collect::<Vec<_>>(),
+            "clone": pool.iter().map(|v| preserved(v, v.try_clone())).collect::<Vec<_>>(),
+            "owned": pool.iter().map(|v| preserved(v, v.try_to_owned().and_then(|o| o.try_clone()).map(Value::from))).collect::<Vec<_>>(),
+            "ovrt": pool.iter().map(|v| preserved(v, OwnedValue::try_from(v).map(Value::from))).collect::<Vec<_>>(),
+            "into": pool.iter().map(|v| preserved(v, v.try_clone().and_then(|c| c.try_into_owned()).map(Value::from))).collect::<Vec<_>>(),
+            "std": std_round_trips(&mut rng),
+        });
+        writeln!(w, "{line}").unwrap();
+    }
+    w.flush().unwrap();
+}
